@@ -149,3 +149,58 @@ func TestGeneratedCases(t *testing.T) {
 	}
 	t.Log(stat)
 }
+
+// The model of the importer contract: the first importer that answers with a
+// package or an error decides; nested chains behave like their flattening.
+func TestChainModel(t *testing.T) {
+	p := func(v string) link { return link{Type: "packages", Pkgs: map[string]string{"shadow": v}} }
+	e := link{Type: "custom", ID: "E", Err: []string{"shadow"}}
+	n := link{Type: "custom"}
+	cases := []struct {
+		chain []link
+		want  answer
+	}{
+		{[]link{n, p("2")}, answer{Kind: "pkg", Variant: "2"}},
+		{[]link{p("1"), p("2")}, answer{Kind: "pkg", Variant: "1"}},
+		{[]link{e, p("2")}, answer{Kind: "err", Msg: e.errMsg("shadow")}},
+		{[]link{p("1"), e}, answer{Kind: "pkg", Variant: "1"}},
+		{[]link{n, n}, answer{Kind: "nil"}},
+		{[]link{{Nested: []link{n, e}}, p("3")}, answer{Kind: "err", Msg: e.errMsg("shadow")}},
+		{[]link{{Nested: []link{n, n}}, p("3")}, answer{Kind: "pkg", Variant: "3"}},
+		// native.Packages cannot return an error
+		{[]link{{Type: "packages", Err: []string{"shadow"}}, p("2")}, answer{Kind: "pkg", Variant: "2"}},
+	}
+	for i, c := range cases {
+		if got := chainAnswer(c.chain, "shadow"); got != c.want {
+			t.Errorf("case %d: model says %+v, want %+v", i, got, c.want)
+		}
+		// the real importers built from the same description agree with the model
+		// on the unchanged native package
+		pk, err := makeChainImporter(c.chain).Import("shadow")
+		switch {
+		case c.want.Kind == "pkg" && (pk == nil || err != nil || pk.Lookup("Only"+c.want.Variant) == nil):
+			t.Errorf("case %d: real chain gave %v, %v; model %+v", i, pk, err, c.want)
+		case c.want.Kind == "err" && (pk != nil || err == nil || err.Error() != c.want.Msg):
+			t.Errorf("case %d: real chain gave %v, %v; model %+v", i, pk, err, c.want)
+		case c.want.Kind == "nil" && (pk != nil || err != nil):
+			t.Errorf("case %d: real chain gave %v, %v; model %+v", i, pk, err, c.want)
+		}
+	}
+}
+
+// The systematic families must be silent on the unchanged tree.
+func TestFamilies(t *testing.T) {
+	g := &gen{r: core.Rand(3, "fam")}
+	stat := map[string]int{}
+	bad := 0
+	all := append(g.familyNamePath(), g.familyChains()...)
+	for i, cd := range all {
+		r := prop{}.Work(core.NewCase("f", cd))
+		stat[cd.Kind+"/"+cd.Expect+"/"+r.Status]++
+		if r.Status != core.OK && bad < 8 {
+			bad++
+			t.Errorf("family case %d (%s): %s: %s", i, cd.Probe, r.Status, core.Truncate(r.Detail, 1200))
+		}
+	}
+	t.Log(len(all), stat)
+}
